@@ -15,9 +15,13 @@ try:
     rc, out = sh("git -C /repo worktree add -q --detach %s HEAD" % wt); assert rc == 0, out
     demo = os.path.join(seed, "demo_test.go")
     have_demo = os.path.exists(demo)
+    meta = json.load(open(os.path.join(seed, "meta.json"))) if os.path.exists(os.path.join(seed, "meta.json")) else {}
+    # some demonstrations need to be the first test of their process (-run) or another platform (GOARCH=386 runs natively)
+    demo_cmd = "go test -vet=off -count=1 %s ./tests/" % (("-run '%s'" % meta["demo_run"]) if meta.get("demo_run") else "")
+    demo_env = dict(env, **meta.get("demo_env", {}))
     if have_demo:
         shutil.copy(demo, os.path.join(wt, "tests", "zz_demo_test.go"))
-        rc, out = sh("go test -vet=off -count=1 ./tests/", cwd=wt)
+        rc, out = sh(demo_cmd, cwd=wt, e=demo_env)
         res["demo_without_patch"] = "pass" if rc == 0 else "FAIL"
         os.remove(os.path.join(wt, "tests", "zz_demo_test.go"))
     rc, out = sh("git apply %s" % os.path.join(seed, "patch.diff"), cwd=wt)
@@ -27,7 +31,7 @@ try:
     res["suite_with_patch"] = "pass" if rc == 0 else "FAIL"
     if have_demo:
         shutil.copy(demo, os.path.join(wt, "tests", "zz_demo_test.go"))
-        rc, out = sh("go test -vet=off -count=1 ./tests/", cwd=wt)
+        rc, out = sh(demo_cmd, cwd=wt, e=demo_env)
         res["demo_with_patch"] = "fail" if rc != 0 else "PASSES"
         os.remove(os.path.join(wt, "tests", "zz_demo_test.go"))
     print("confirm:", json.dumps(res))
